@@ -40,11 +40,19 @@ class Rec:
     d = 1
 
 
+class RecCode(Rec):
+    """Recorder with the constructor signature of the real code classes: parameters are bound BY NAME."""
+
+    def __init__(self, L_x, L_y=None, L_z=None):
+        self.args = ()
+        self.kwargs = {'L_x': L_x, 'L_y': L_y, 'L_z': L_z}
+
+
 def make_recorders():
-    class CodeA(Rec):
+    class CodeA(RecCode):
         kind = 'CodeA'
 
-    class CodeB(Rec):
+    class CodeB(RecCode):
         kind = 'CodeB'
 
     class Noise(Rec):
@@ -102,14 +110,20 @@ def w_expand(cfg, tier):
             rv = [eng.integer(f'r{i}') for i in range(nr)]
 
             def cparams(v):
-                return {'L_x': v[0], 'L_y': v[1]} if pform == 'dict' else [v[0], v[1]]
+                if pform == 'dict':
+                    return {'L_x': v[0], 'L_y': v[1]}
+                if pform == 'dict-reordered':          # keys in another order: must still bind by name
+                    return {'L_y': v[1], 'L_x': v[0]}
+                if pform == 'dict-partial':            # L_y omitted, L_z given
+                    return {'L_z': v[1], 'L_x': v[0]}
+                return [v[0], v[1]]
 
             def nparams(v):
-                return {'r_x': v[0], 'r_z': v[1]} if pform == 'dict' else [v[0], v[1]]
+                return {'r_x': v[0], 'r_z': v[1]} if pform.startswith('dict') else [v[0], v[1]]
 
             def spec(code_name, cvs, nvs, dvs, rvs):
                 # a single dict may stand for a one-element range; list-form parameter sets must be wrapped
-                one = lambda lst: lst[0] if (len(lst) == 1 and pform == 'dict') else lst
+                one = lambda lst: lst[0] if (len(lst) == 1 and pform.startswith('dict')) else lst
                 return {
                     'label': 'x',
                     'code': {'name': code_name, 'parameters': one([cparams(v) for v in cvs])},
@@ -142,7 +156,13 @@ def w_expand(cfg, tier):
                 got = []
                 for sim in batch._simulations:
                     code, noise, dec = sim.code, sim.error_model, sim.decoder
-                    cvals = [code.kwargs['L_x'], code.kwargs['L_y']] if code.kwargs else list(code.args)
+                    if pform == 'dict-partial':
+                        cvals = [code.kwargs['L_x'], code.kwargs['L_z']]
+                        if code.kwargs['L_y'] is not None:
+                            cvals = [code.kwargs['L_x'], code.kwargs['L_y']]     # bound to the wrong name: visible below
+                            cvals[1] = cvals[1] + 1000003
+                    else:
+                        cvals = [code.kwargs['L_x'], code.kwargs['L_y']]
                     nvals = [noise.kwargs['r_x'], noise.kwargs['r_z']] if noise.kwargs else list(noise.args)
                     wired = dec.kwargs.get('code') is code and dec.kwargs.get('error_model') is noise and \
                         dec.kwargs.get('error_rate') is sim.error_rate
@@ -287,6 +307,8 @@ def configs(tier):
         out.append(f'expand form=list c={c} n={n} d={d} r={r} pform=dict')
         out.append(f'expand form=ranges c={c} n={n} d={d} r={r} pform=list')
         out.append(f'expand form=runs c={c} n={n} d={d} r={r} pform=dict')
+        out.append(f'expand form=ranges c={c} n={n} d={d} r={r} pform=dict-reordered')
+        out.append(f'expand form=runs c={c} n={n} d={d} r={r} pform=dict-partial')
     return out
 
 
